@@ -26,6 +26,12 @@
      HashSession  TRUE | FALSE    newHashAny binds the session hash
      HashId       TRUE | FALSE    newHashAny binds the message id
      DedupMode    "peer+id" | "id" | "none"   key of server.dedup
+     SigCache     "none" | "id+sigs" | "id+sigs/member" | "sigs"
+                  "none": handleMessage verifies every message it is given (the tree).  Otherwise (controls) the server
+                  REMEMBERS the signature sets that passed verification -- keyed by the message id and the signature
+                  list ("sigs": by the list alone), per component ("/member": one memory for all components of a
+                  member) -- and skips verification when a remembered set shows up again: the key covers neither the
+                  payload nor the session, so an ACCEPTED signature set replayed with another payload is delivered.
 
    Known finding C13-relay-foreign-payload (named deviation, switched on by AllowRelay): the signed hash does not
    bind the SENDER, so a member can re-send another member's completely signed payload for the same id under its own
@@ -38,8 +44,9 @@ CONSTANTS Sessions,      \* ceremony sessions (session hashes)
           Allowed,       \* message ids registered with RegisterMessageIDFuncs
           HashSession, HashId, DedupMode,
           AllowRelay,    \* the named deviation RelayForeignPayload is enabled
-          AtomicDedup    \* TRUE: dedupHash compares AND records under one hold of s.mu, before signing (the tree);
+          AtomicDedup,   \* TRUE: dedupHash compares AND records under one hold of s.mu, before signing (the tree);
                          \* FALSE (control): compare, sign, record afterwards (check-then-act)
+          SigCache       \* "none" (the tree); controls: verified signature sets are remembered WITHOUT the payload
 
 VARIABLES cfg,        \* [n |-> cluster size, faulty |-> set of faulty members]
           dedup,      \* [honest m -> [session -> set of [req, id, pl]]]   server.dedup of m's component
@@ -48,9 +55,11 @@ VARIABLES cfg,        \* [n |-> cluster size, faulty |-> set of faulty members]
           raw,        \* history: [honest r -> [session -> set of [from, id, pl]]] callback invocations
           relay,      \* history: the same, for invocations through the deviation RelayForeignPayload
           client,     \* [honest h -> [session -> [act, id, pl, got]]] a running client.Broadcast
-          pend        \* signature requests of faulty members that are inside handleSigRequest concurrently:
+          pend,       \* signature requests of faulty members that are inside handleSigRequest concurrently:
                       \* set of [k, m, s, req, id, pl, st], st = "called" | "checked" | "ok" | "no"
-vars == <<cfg, dedup, signed, known, raw, relay, client, pend>>
+          vcache      \* controls only (SigCache # "none"): [honest r -> [session -> set of [id, sigs]]], the signature
+                      \* sets r's component remembers as verified; constant (empty) in the design of the tree
+vars == <<cfg, dedup, signed, known, raw, relay, client, pend, vcache>>
 
 Members == 1..cfg.n
 Faulty == cfg.faulty
@@ -70,6 +79,7 @@ InitWith(c) ==
   /\ relay = [m \in (1..c.n) \ c.faulty |-> [s \in Sessions |-> {}]]
   /\ client = [m \in (1..c.n) \ c.faulty |-> [s \in Sessions |-> Idle]]
   /\ pend = {}
+  /\ vcache = [m \in (1..c.n) \ c.faulty |-> [s \in Sessions |-> {}]]
 
 ---------------------------------------------------------------------------------------------------
 (* newHashAny: what a signature is bound to. *)
@@ -95,10 +105,20 @@ ServeSig(m, s, req, id, pl) ==
 Verify(s, id, pl, sigs) == /\ Len(sigs) = cfg.n
                            /\ id \in Allowed
                            /\ \A i \in 1..cfg.n : SigOK(sigs[i], i, s, id, pl)
+(* What handleMessage lets through.  In the design of the tree: exactly what verifies (every position of the list is a
+   valid signature of THAT member over exactly (session, id, payload)) -- whatever the component accepted before.
+   The control variants add a memory of verified signature sets that is consulted first. *)
+CacheKey(id, sigs) == [id |-> IF SigCache = "sigs" THEN "*" ELSE id, sigs |-> sigs]
+CacheHit(r, s, id, sigs) ==
+  CASE SigCache = "none" -> FALSE
+    [] SigCache = "id+sigs/member" -> \E s2 \in Sessions : CacheKey(id, sigs) \in vcache[r][s2]
+    [] OTHER -> CacheKey(id, sigs) \in vcache[r][s]
+Passes(r, s, id, pl, sigs) == IF CacheHit(r, s, id, sigs) THEN TRUE ELSE Verify(s, id, pl, sigs)
 Deliver(r, s, from, id, pl, sigs) ==
-  IF Verify(s, id, pl, sigs)
-    THEN raw' = [raw EXCEPT ![r][s] = @ \cup {[from |-> from, id |-> id, pl |-> pl]}]
-    ELSE UNCHANGED raw
+  IF Passes(r, s, id, pl, sigs)
+    THEN /\ raw' = [raw EXCEPT ![r][s] = @ \cup {[from |-> from, id |-> id, pl |-> pl]}]
+         /\ vcache' = IF SigCache = "none" THEN vcache ELSE [vcache EXCEPT ![r][s] = @ \cup {CacheKey(id, sigs)}]
+    ELSE UNCHANGED <<raw, vcache>>
 (* what every callback registered in the tree does before it uses a payload (dkg/nodesigs.go broadcastCallback,
    dkg/frostp2p.go newBcastCallback): right type, origin tag = transport sender (and not the receiver itself) *)
 CallbackAccepts(r, from, pl) == pl.ok /\ pl.origin = from /\ pl.origin # r
@@ -113,7 +133,7 @@ BStart(h, s, id, pl) ==
             /\ client' = [client EXCEPT ![h][s] = [act |-> TRUE, id |-> id, pl |-> pl, got |-> {Sig(h, s, id, pl)}]]
        ELSE /\ UNCHANGED signed
             /\ client' = [client EXCEPT ![h][s] = [act |-> TRUE, id |-> id, pl |-> pl, got |-> {}]]
-  /\ UNCHANGED <<cfg, dedup, known, raw, relay, pend>>
+  /\ UNCHANGED <<cfg, dedup, known, raw, relay, pend, vcache>>
 \* the request of h's client is served by honest m
 HSig(h, s, m) ==
   LET c == client[h][s] IN
@@ -121,13 +141,13 @@ HSig(h, s, m) ==
   /\ ServeSig(m, s, h, c.id, c.pl)
   /\ client' = [client EXCEPT ![h][s].got =
                   IF SigOutcome(m, s, h, c.id, c.pl) = "ok" THEN @ \cup {Sig(m, s, c.id, c.pl)} ELSE @]
-  /\ UNCHANGED <<cfg, known, raw, relay, pend>>
+  /\ UNCHANGED <<cfg, known, raw, relay, pend, vcache>>
 Forgeable(sig) == sig.by \notin Honest \/ sig \in known
 \* a faulty member answers the request of h's client with whatever it can produce
 FReply(h, s, f, sig) ==
   /\ h \in Honest /\ client[h][s].act /\ f \in Faulty /\ Forgeable(sig)
   /\ client' = [client EXCEPT ![h][s].got = @ \cup {sig}]
-  /\ UNCHANGED <<cfg, dedup, signed, known, raw, relay, pend>>
+  /\ UNCHANGED <<cfg, dedup, signed, known, raw, relay, pend, vcache>>
 \* h's client sends its BCastMessage to honest r (only signatures it was given; order/completeness is the
 \* client's business: the receiver decides)
 HSend(h, s, r, sigs) ==
@@ -142,18 +162,18 @@ FRecv(h, s, f, sigs) ==
   /\ h \in Honest /\ c.act /\ f \in Faulty
   /\ \A i \in DOMAIN sigs : sigs[i] \in c.got
   /\ known' = known \cup {sigs[i] : i \in {j \in DOMAIN sigs : sigs[j].by \in Honest}}
-  /\ UNCHANGED <<cfg, dedup, signed, raw, relay, client, pend>>
+  /\ UNCHANGED <<cfg, dedup, signed, raw, relay, client, pend, vcache>>
 BEnd(h, s) ==
   /\ h \in Honest /\ client[h][s].act
   /\ client' = [client EXCEPT ![h][s] = Idle]
-  /\ UNCHANGED <<cfg, dedup, signed, known, raw, relay, pend>>
+  /\ UNCHANGED <<cfg, dedup, signed, known, raw, relay, pend, vcache>>
 
 (* Faulty member f talks to the handlers of honest members directly. *)
 FSig(f, m, s, id, pl) ==
   /\ f \in Faulty /\ m \in Honest
   /\ ServeSig(m, s, f, id, pl)
   /\ known' = IF SigOutcome(m, s, f, id, pl) = "ok" THEN known \cup {Sig(m, s, id, pl)} ELSE known
-  /\ UNCHANGED <<cfg, raw, relay, client, pend>>
+  /\ UNCHANGED <<cfg, raw, relay, client, pend, vcache>>
 \* a verifying message of f whose payload is ANOTHER (honest) member's completely signed broadcast: every honest
 \* member signed it in that member's dedup slot; f re-sends it under its own transport identity
 IsRelay(f, s, id, pl, sigs) ==
@@ -165,7 +185,7 @@ IsRelay(f, s, id, pl, sigs) ==
 FCall(k, f, m, s, id, pl) ==
   /\ f \in Faulty /\ m \in Honest /\ \A p \in pend : p.k # k
   /\ pend' = pend \cup {[k |-> k, m |-> m, s |-> s, req |-> f, id |-> id, pl |-> pl, st |-> "called"]}
-  /\ UNCHANGED <<cfg, dedup, signed, known, raw, relay, client>>
+  /\ UNCHANGED <<cfg, dedup, signed, known, raw, relay, client, vcache>>
 FLin(p) ==
   /\ p \in pend /\ p.st = "called"
   /\ IF AtomicDedup
@@ -173,19 +193,19 @@ FLin(p) ==
             /\ pend' = (pend \ {p}) \cup {[p EXCEPT !.st = IF SigOutcome(p.m, p.s, p.req, p.id, p.pl) = "ok" THEN "ok" ELSE "no"]}
        ELSE /\ UNCHANGED <<dedup, signed>>            \* only compared
             /\ pend' = (pend \ {p}) \cup {[p EXCEPT !.st = IF SigOutcome(p.m, p.s, p.req, p.id, p.pl) = "ok" THEN "checked" ELSE "no"]}
-  /\ UNCHANGED <<cfg, known, raw, relay, client>>
+  /\ UNCHANGED <<cfg, known, raw, relay, client, vcache>>
 \* control only (AtomicDedup = FALSE): signed, then recorded whatever the map holds by now
 FRecord(p) ==
   /\ ~AtomicDedup /\ p \in pend /\ p.st = "checked"
   /\ dedup' = [dedup EXCEPT ![p.m][p.s] = @ \cup {[req |-> p.req, id |-> p.id, pl |-> p.pl]}]
   /\ signed' = [signed EXCEPT ![p.m] = @ \cup {<<p.s, p.id, p.pl>>}]
   /\ pend' = (pend \ {p}) \cup {[p EXCEPT !.st = "ok"]}
-  /\ UNCHANGED <<cfg, known, raw, relay, client>>
+  /\ UNCHANGED <<cfg, known, raw, relay, client, vcache>>
 FRet(p) ==
   /\ p \in pend /\ p.st \in {"ok", "no"}
   /\ pend' = pend \ {p}
   /\ known' = IF p.st = "ok" THEN known \cup {Sig(p.m, p.s, p.id, p.pl)} ELSE known
-  /\ UNCHANGED <<cfg, dedup, signed, raw, relay, client>>
+  /\ UNCHANGED <<cfg, dedup, signed, raw, relay, client, vcache>>
 FSend(f, r, s, id, pl, sigs) ==
   /\ f \in Faulty /\ r \in Honest
   /\ \A i \in DOMAIN sigs : Forgeable(sigs[i])
@@ -199,7 +219,7 @@ RelayForeignPayload(f, r, s, id, pl, sigs) ==
   /\ \A i \in DOMAIN sigs : Forgeable(sigs[i])
   /\ IsRelay(f, s, id, pl, sigs)
   /\ relay' = [relay EXCEPT ![r][s] = @ \cup {[from |-> f, id |-> id, pl |-> pl]}]
-  /\ UNCHANGED <<cfg, dedup, signed, known, raw, client, pend>>
+  /\ UNCHANGED <<cfg, dedup, signed, known, raw, client, pend, vcache>>
 
 ---------------------------------------------------------------------------------------------------
 (* A repertoire of signature lists for a faulty sender (used by the exhaustive configs and by schedule
@@ -216,6 +236,10 @@ AttackLists(s, id, pl) ==
   {b} \cup UNION {{[b EXCEPT ![i] = a] : a \in {x \in Alternatives(i, s, id, pl) : Forgeable(x)}} : i \in Members}
       \cup {[b EXCEPT ![i] = b[j], ![j] = b[i]] : i, j \in Members}
       \cup {SubSeq(b, 1, cfg.n - 1), SubSeq(b, 2, cfg.n), Append(b, b[cfg.n]), <<>>}
+(* ... and the REPLAY of a complete signature set: the best list it can build for ANOTHER payload it holds a signature
+   for, under any registered id, in any session (when such a list is complete it is a list some member may already
+   have accepted: sent again with this payload / id / session it must be refused all the same). *)
+ReplayLists == {BestList(s2, id2, p2) : s2 \in Sessions, id2 \in Allowed, p2 \in {g.pl : g \in known}}
 
 ---------------------------------------------------------------------------------------------------
 (* Properties (C13). *)
